@@ -246,6 +246,11 @@ class Caller:
 
 
 class Model:
+    # Mako sets the pending `caller` of a <%call expr="f(g())"> BEFORE the expression is evaluated, so a def called
+    # inside the argument list (g) runs with that caller as well (recorded as finding C05/def-in-call-arguments-sees-
+    # caller).  Checks whose subject is something else (C13) switch this on to follow Mako as it is.
+    CCALL_ARG_CALLER = False
+
     def __init__(self, doc, context, includes=None, buffer_filters=(), boom_mode=None, include_handler=False, child=None):
         self.doc = doc
         self.boom_mode = boom_mode      # None | filter | deco-before | deco-after: where rz / rdeco raise
@@ -291,13 +296,13 @@ class Model:
                 return d[name]
         return (self.defs[name], {"vars": [], "defs": [], "caller": None, "loops": []})
 
-    def value(self, v, scope):
+    def value(self, v, scope, arg_caller=None):
         if v[0] == "lit":
             return v[1]
         if v[0] == "var":
             return self.lookup(scope, v[1])
         if v[0] == "call":
-            return self.call_def(v[1], [], {}, scope)
+            return self.call_def(v[1], [], {}, scope, caller=arg_caller if self.CCALL_ARG_CALLER else None)
         if v[0] in ("mix", "mix2"):
             # literal parts and ${} values are joined with `+` in the order written; empty literal parts do not exist,
             # so a value standing alone keeps its type and str + non-str is Python's TypeError
@@ -319,13 +324,13 @@ class Model:
             return "rf"
         raise ValueError(v)
 
-    def eval_args(self, args, scope):
+    def eval_args(self, args, scope, arg_caller=None):
         pos, kw = [], {}
         for a in args:
             if a[0] == "pos":
-                pos.append(self.value(a[1], scope))
+                pos.append(self.value(a[1], scope, arg_caller))
             else:
-                kw[a[1]] = self.value(a[2], scope)
+                kw[a[1]] = self.value(a[2], scope, arg_caller)
         return pos, kw
 
     # -- def invocation; returns the call's return value
@@ -456,7 +461,7 @@ class Model:
                     return ""
 
                 caller = Caller(body_fn, cdefs)
-                pos, kw = self.eval_args(args, scope)
+                pos, kw = self.eval_args(args, scope, arg_caller=caller if style == "call" else None)
                 self.write(str(self.call_def(name, pos, kw, scope, caller=caller)))
             elif k == "CB":
                 c = scope["caller"]
